@@ -39,14 +39,28 @@ impl<'a> SectionsBuilder<'a> {
     }
 
     pub fn process_blocks(&mut self, range: Range, content: &DocumentBlocks) {
-        // 1. append all non-header blocks until first header
-        // 2. take the rest and split into sections
-        // 3. call process_sections for each section
         if range.is_empty() {
             return;
         }
 
         self.builder.set_insert(true);
+        self.place_blocks(range, content);
+    }
+
+    /// like `process_blocks`, but the blocks continue the sibling chain of the current node
+    fn append_blocks(&mut self, range: Range, content: &DocumentBlocks) {
+        if range.is_empty() {
+            return;
+        }
+
+        self.builder.set_insert(false);
+        self.place_blocks(range, content);
+    }
+
+    fn place_blocks(&mut self, range: Range, content: &DocumentBlocks) {
+        // 1. append all non-header blocks until first header
+        // 2. take the rest and split into sections
+        // 3. call process_sections for each section
         let first_header = first_header(range.clone(), content);
         let pre_header_range = range.start..first_header.unwrap_or(range.end);
         for i in pre_header_range.clone() {
@@ -73,26 +87,6 @@ impl<'a> SectionsBuilder<'a> {
 
         for i in ranges {
             self.process_section(i, &content);
-        }
-    }
-
-    /// like `process_blocks`, but the blocks continue the sibling chain of the current node
-    fn append_blocks(&mut self, range: Range, content: &DocumentBlocks) {
-        if range.is_empty() {
-            return;
-        }
-        let first_header = first_header(range.clone(), content).unwrap_or(range.end);
-        for i in range.start..first_header {
-            self.builder.set_insert(false);
-            self.block(&content[i]);
-        }
-        for i in first_header..range.end {
-            // headings after the leading list become further sections of the item
-            self.builder.set_insert(false);
-            match &content[i] {
-                Header(_) => self.section_block(&content[i]),
-                _ => self.block(&content[i]),
-            }
         }
     }
 
